@@ -1234,3 +1234,15 @@ func capturedAndWritten(al *ssa.Alloc) bool {
 	}
 	return false
 }
+
+func constantFloat(c *ssa.Const) (float64, bool) {
+	if c.Value == nil {
+		return 0, false
+	}
+	switch c.Value.Kind() {
+	case constant.Float, constant.Int:
+		f, _ := constant.Float64Val(constant.ToFloat(c.Value))
+		return f, true
+	}
+	return 0, false
+}
